@@ -317,7 +317,7 @@ func ParamScenarios() []History {
 		with(func(p *MParams) { p.Tax = 1000 }),
 		with(func(p *MParams) { p.MaxTimeout = 0 }),
 		with(func(p *MParams) { p.Multiple = 0 }),
-		with(func(p *MParams) { p.RefundDelay = 1 }),
+		with(func(p *MParams) { p.RefundDelay = 0 }),
 		with(func(p *MParams) { p.Slash = 1000; p.Tax = 999 }),
 		Ev{Name: "Respond", Signer: "p1", Rid: rid(1, 1, 1, 0), Kind: "valid"},
 		Ev{Name: "Respond", Signer: "p2", Rid: rid(1, 1, 1, 1), Kind: "bad"},
